@@ -49,6 +49,12 @@ def generate(seed, tier):
             tf = [k0["fields"][-1]]
         f = rng.choice(tf)
         ents = dist_entries(rng, f["w"], f["s"])
+        rngs_ = [e for e in ents if isinstance(e["v"], list) and e["w"] != 0 and e["v"][1] > e["v"][0]]
+        if rngs_ and rng.random() < 0.4:
+            # a zero-weight value inside a positively weighted range: still never produced
+            e = rng.choice(rngs_)
+            ents.append({"v": rng.randint(e["v"][0], e["v"][1]), "w": 0})
+            rec["overlap"] = True
         # weights given by non-random fields
         wf = []
         for i, e in enumerate(ents):
@@ -88,13 +94,25 @@ def generate(seed, tier):
         w = rng.choice([3, 4, 5, 6])
         signed = rng.random() < 0.2
         ents = dist_entries(rng, w, signed)
+        fields = [{"n": "a", "k": "s", "w": w, "s": signed, "r": True, "i": 0},
+                  {"n": "b", "k": "s", "w": 3, "s": False, "r": True, "i": 0}]
+        phases = None
+        if rng.random() < 0.5:
+            # weights given by non-random fields, re-assigned between two phases of draws
+            w1, w2 = [], []
+            for i, e in enumerate(ents):
+                fields.append({"n": "w%d" % i, "k": "s", "w": 4, "s": False, "r": False, "i": e["w"]})
+                w1.append(e["w"])
+                w2.append(rng.choice([0, 1, 2, 5, 8]))
+                e["w"] = {"t": "f", "p": ["w%d" % i]}
+            if sum(w2) == 0:
+                w2[0] = 3
+            phases = [w1, w2]
         prog = {"enums": [], "top": "K0", "classes": [{
-            "name": "K0",
-            "fields": [{"n": "a", "k": "s", "w": w, "s": signed, "r": True, "i": 0},
-                       {"n": "b", "k": "s", "w": 3, "s": False, "r": True, "i": 0}],
+            "name": "K0", "fields": fields,
             "blocks": [{"n": "c", "stmts": [{"t": "dist", "e": progs.F("a"), "w": ents}]}]}]}
         rec.update({"prog": prog, "ops": [], "n": 1500 if tier == "quick" else 6000,
-                    "k": st.lib.randint(0, 1 << 30)})
+                    "k": st.lib.randint(0, 1 << 30), "phases": phases})
     else:
         n = rng.randint(2, 6)
         ws = [rng.choice([0, 1, 1, 2, 3, 5, 10]) for _ in range(n)]
@@ -176,57 +194,67 @@ def execute(rec):
         w.apply({"op": "new", "cls": "K0"})
         w.apply({"op": "seed", "p": 0, "k": rec["k"]})
         dist = rec["prog"]["classes"][0]["blocks"][0]["stmts"][0]
-        ents = dist["w"]
-        total = sum(e["w"] for e in ents)
-        counts = [0] * len(ents)
-        inner = [dict() for _ in ents]
-        n = rec["n"]
         obj = w.parties[0].obj
-        for _ in range(n):
-            obj.randomize()
-            v = int(obj.a)
-            hit = None
-            for i, e in enumerate(ents):
-                if (isinstance(e["v"], list) and e["v"][0] <= v <= e["v"][1]) or (not isinstance(e["v"], list) and v == e["v"]):
-                    hit = i
-                    break
-            if hit is None or ents[hit]["w"] == 0:
-                viol.append({"inv": "C15.outside_support", "cls": "C15.outside_support/freq",
-                             "detail": {"value": v, "dist": ents}})
-                break
-            counts[hit] += 1
-            inner[hit][v] = inner[hit].get(v, 0) + 1
-        stats["draws"] = n
-        stats["hard_calls"] = 0
-        stats["zero_weight_entries"] = len([e for e in ents if e["w"] == 0])
-        stats["range_entries"] = len([e for e in ents if isinstance(e["v"], list)])
-        obs.append(counts)
-        if not viol:
-            for i, e in enumerate(ents):
-                p = e["w"] / float(total)
-                ok, tail = statcheck.binom_ok(counts[i], n, p)
-                stats["freq_tests"] += 1
-                if tail is not None:
-                    stats["min_tail"] = min(stats["min_tail"], tail)
-                if not ok:
-                    viol.append({"inv": "C15.frequency", "cls": "C15.frequency/entry",
-                                 "detail": {"entry": e, "count": counts[i], "n": n, "p": p, "tail": tail,
-                                            "sigma": statcheck.sigma(counts[i], n, p), "counts": counts,
-                                            "dist": ents}})
-                    break
-                if isinstance(e["v"], list) and counts[i] > 0:
-                    size = e["v"][1] - e["v"][0] + 1
-                    for v in range(e["v"][0], e["v"][1] + 1):
-                        ok, tail = statcheck.binom_ok(inner[i].get(v, 0), counts[i], 1.0 / size)
-                        stats["freq_tests"] += 1
-                        if not ok:
-                            viol.append({"inv": "C15.frequency", "cls": "C15.frequency/within_range",
-                                         "detail": {"entry": e, "value": v, "count": inner[i].get(v, 0),
-                                                    "n": counts[i], "p": 1.0 / size, "tail": tail,
-                                                    "inner": inner[i]}})
-                            break
-                    if viol:
-                        break
+        phases = rec.get("phases") or [None]
+        for ph_i, ph in enumerate(phases):
+          import copy as _copy
+          ents = _copy.deepcopy(dist["w"])
+          if ph is not None:
+            for i, wv in enumerate(ph):
+                setattr(obj, "w%d" % i, wv)
+                ents[i]["w"] = wv
+            stats["weight_field_assigns"] += len(ph)
+          total = sum(e["w"] for e in ents)
+          counts = [0] * len(ents)
+          inner = [dict() for _ in ents]
+          n = rec["n"]
+          if viol:
+            break
+          for _ in range(n):
+              obj.randomize()
+              v = int(obj.a)
+              hit = None
+              for i, e in enumerate(ents):
+                  if (isinstance(e["v"], list) and e["v"][0] <= v <= e["v"][1]) or (not isinstance(e["v"], list) and v == e["v"]):
+                      hit = i
+                      break
+              if hit is None or ents[hit]["w"] == 0:
+                  viol.append({"inv": "C15.outside_support", "cls": "C15.outside_support/freq",
+                               "detail": {"value": v, "dist": ents}})
+                  break
+              counts[hit] += 1
+              inner[hit][v] = inner[hit].get(v, 0) + 1
+          stats["draws"] = stats.get("draws", 0) + n
+          stats["hard_calls"] = 0
+          stats["zero_weight_entries"] = len([e for e in ents if e["w"] == 0])
+          stats["range_entries"] = len([e for e in ents if isinstance(e["v"], list)])
+          obs.append(counts)
+          if not viol:
+              for i, e in enumerate(ents):
+                  p = e["w"] / float(total)
+                  ok, tail = statcheck.binom_ok(counts[i], n, p)
+                  stats["freq_tests"] += 1
+                  if tail is not None:
+                      stats["min_tail"] = min(stats["min_tail"], tail)
+                  if not ok:
+                      viol.append({"inv": "C15.frequency", "cls": "C15.frequency/entry",
+                                   "detail": {"entry": e, "count": counts[i], "n": n, "p": p, "tail": tail,
+                                              "sigma": statcheck.sigma(counts[i], n, p), "counts": counts,
+                                              "dist": ents}})
+                      break
+                  if isinstance(e["v"], list) and counts[i] > 0:
+                      size = e["v"][1] - e["v"][0] + 1
+                      for v in range(e["v"][0], e["v"][1] + 1):
+                          ok, tail = statcheck.binom_ok(inner[i].get(v, 0), counts[i], 1.0 / size)
+                          stats["freq_tests"] += 1
+                          if not ok:
+                              viol.append({"inv": "C15.frequency", "cls": "C15.frequency/within_range",
+                                           "detail": {"entry": e, "value": v, "count": inner[i].get(v, 0),
+                                                      "n": counts[i], "p": 1.0 / size, "tail": tail,
+                                                      "inner": inner[i]}})
+                              break
+                      if viol:
+                          break
         sim_ms = int(w.clock.elapsed * 1000) + n
         sig = "freq|" + kernel.digest([[isinstance(e["v"], list), e["w"]] for e in ents])
     else:
